@@ -7,101 +7,13 @@ From FV Require Import NumSys RealA Py NumX Sums Queue Stats Detector Cusum SPC 
 From FVG Require Import GSrc EqStats EqCusum EqSPC EqHDDM EqHDDMW EqRDDM.
 Import ListNotations.
 
-Fixpoint g_exec {S V} (upd : S -> V -> res (S * unit)) (rst : S -> res (S * unit)) (s : S) (ops : list (op V)) : res S :=
-  match ops with
-  | [] => Ok s
-  | Upd v :: r => match upd s v with Ok (s', _) => g_exec upd rst s' r | Raise e => Raise e end
-  | Rst :: r => match rst s with Ok (s', _) => g_exec upd rst s' r | Raise e => Raise e end
-  end.
-
-Definition ops_in {V} (P : V -> Prop) (ops : list (op V)) : Prop := forall v, In (Upd v) ops -> P v.
-
-Section GExec.
-  Variables (S V T : Type) (step : S -> V -> S) (init : S) (t : S -> T).
-  Variables (upd : T -> V -> res (T * unit)) (rst : T -> res (T * unit)).
-  Variables (Inv : S -> Prop) (P : V -> Prop).
-  Hypothesis H0 : Inv init.
-  Hypothesis Hstep : forall s v, Inv s -> P v -> Inv (step s v).
-  Hypothesis Hupd : forall s v, Inv s -> P v -> upd (t s) v = Ok (t (step s v), tt).
-  Hypothesis Hrst : forall s, Inv s -> rst (t s) = Ok (t init, tt).
-
-  Definition m_apply (s : S) (o : op V) : S := match o with Upd v => step s v | Rst => init end.
-
-  Lemma g_exec_from : forall ops s, Inv s -> ops_in P ops ->
-    g_exec upd rst (t s) ops = Ok (t (fold_left m_apply ops s)) /\ Inv (fold_left m_apply ops s).
-  Proof.
-    induction ops as [|o r IH]; intros s Hs Hp; [split; [reflexivity|exact Hs]|].
-    assert (Hr : ops_in P r) by (intros v Hv; apply Hp; right; exact Hv).
-    destruct o as [v|]; cbn [g_exec fold_left m_apply].
-    - assert (Pv : P v) by (apply Hp; left; reflexivity).
-      rewrite (Hupd s v Hs Pv). apply IH; [apply Hstep; assumption|exact Hr].
-    - rewrite (Hrst s Hs). apply IH; [exact H0|exact Hr].
-  Qed.
-
-  (** C02 over histories: whatever came before, `reset()` puts the object where a fresh history starts *)
-  Lemma g_exec_reset_fresh : forall ops1 ops2, ops_in P ops1 -> ops_in P ops2 ->
-    g_exec upd rst (t init) (ops1 ++ Rst :: ops2) = g_exec upd rst (t init) ops2.
-  Proof.
-    intros ops1 ops2 H1 H2.
-    assert (H12 : ops_in P (ops1 ++ Rst :: ops2)).
-    { intros v Hv. apply in_app_or in Hv. destruct Hv as [Hv|[Hv|Hv]]; [apply H1; exact Hv|discriminate|apply H2; exact Hv]. }
-    rewrite (proj1 (g_exec_from _ init H0 H12)), (proj1 (g_exec_from _ init H0 H2)).
-    rewrite fold_left_app. reflexivity.
-  Qed.
-End GExec.
-
 Lemma const_ops_in : forall {V} (k : V) (P : V -> Prop) ops, P k -> const_ops k ops -> ops_in P ops.
 Proof.
   intros V k P ops Hk Hc v Hv. unfold const_ops in Hc. rewrite Forall_forall in Hc.
   destruct (Hc _ Hv) as [H|H]; [discriminate|]. injection H as ->. exact Hk.
 Qed.
 
-(** [g_run] of one value is one call of the update *)
-Lemma g_run_one : forall {S V} (upd : S -> V -> res (S * unit)) s v s', g_run upd s [v] = Ok s' -> upd s v = Ok (s', tt).
-Proof. intros S V upd s v s' H. cbn in H. destruct (upd s v) as [[s1 []]|e]; [injection H as ->; reflexivity|discriminate]. Qed.
-
-(** the same from a run lemma stated over prefixes *)
-Section GExecPre.
-  Variables (S V T : Type) (step : S -> V -> S) (init : S) (t : S -> T).
-  Variables (upd : T -> V -> res (T * unit)) (rst : T -> res (T * unit)) (P : V -> Prop).
-  Hypothesis Hrun : forall vs pre, (forall v, In v (pre ++ vs) -> P v) ->
-    g_run upd (t (fold_left step pre init)) vs = Ok (t (fold_left step (pre ++ vs) init)).
-  Hypothesis Hrst : forall pre, (forall v, In v pre -> P v) -> rst (t (fold_left step pre init)) = Ok (t init, tt).
-
-  Definition pre_Inv (s : S) : Prop := exists pre, (forall v, In v pre -> P v) /\ s = fold_left step pre init.
-
-  Lemma pre_Inv_init : pre_Inv init.
-  Proof. exists []. split; [intros v []|reflexivity]. Qed.
-  Lemma pre_Inv_step : forall s v, pre_Inv s -> P v -> pre_Inv (step s v).
-  Proof.
-    intros s v (pre & Hpre & ->) Hv. exists (pre ++ [v]). split.
-    - intros x Hx. apply in_app_or in Hx. destruct Hx as [Hx|[<-|[]]]; [apply Hpre; exact Hx|exact Hv].
-    - rewrite fold_left_app. reflexivity.
-  Qed.
-  Lemma pre_upd : forall s v, pre_Inv s -> P v -> upd (t s) v = Ok (t (step s v), tt).
-  Proof.
-    intros s v (pre & Hpre & ->) Hv. apply g_run_one. rewrite (Hrun [v] pre).
-    - rewrite fold_left_app. reflexivity.
-    - intros x Hx. apply in_app_or in Hx. destruct Hx as [Hx|[<-|[]]]; [apply Hpre; exact Hx|exact Hv].
-  Qed.
-  Lemma pre_rst : forall s, pre_Inv s -> rst (t s) = Ok (t init, tt).
-  Proof. intros s (pre & Hpre & ->). apply Hrst. exact Hpre. Qed.
-
-  Lemma g_exec_pre : forall ops, ops_in P ops ->
-    g_exec upd rst (t init) ops = Ok (t (fold_left (m_apply S V step init) ops init)).
-  Proof.
-    intros ops Hp.
-    exact (proj1 (g_exec_from S V T step init t upd rst pre_Inv P pre_Inv_init pre_Inv_step pre_upd pre_rst ops init pre_Inv_init Hp)).
-  Qed.
-  Lemma g_exec_pre_fresh : forall ops1 ops2, ops_in P ops1 -> ops_in P ops2 ->
-    g_exec upd rst (t init) (ops1 ++ Rst :: ops2) = g_exec upd rst (t init) ops2.
-  Proof. exact (g_exec_reset_fresh S V T step init t upd rst pre_Inv P pre_Inv_init pre_Inv_step pre_upd pre_rst). Qed.
-End GExecPre.
-
 Definition nonneg (v : R) : Prop := (0 <= v)%R.
-Definition anyv {V} (v : V) : Prop := True.
-Lemma ops_any : forall {V} (ops : list (op V)), ops_in anyv ops.
-Proof. intros V ops v _. exact I. Qed.
 Lemma const01_nonneg : forall (k : R) ops, (k = 0 \/ k = 1)%R -> const_ops k ops -> ops_in nonneg ops.
 Proof. intros k ops Hk Hc. apply (const_ops_in k); [|exact Hc]. unfold nonneg. destruct Hk as [-> | ->]; lra. Qed.
 
